@@ -26,34 +26,44 @@ theorem decode_eq_spec (p : List Nat) : decodeFullReport p = decodeSpec p := by
     rw [slice_eq (l := p) (a := 0) (b := 32) (by omega) (by omega),
       slice_eq (l := p) (a := 32) (b := 64) (by omega) (by omega),
       slice_eq (l := p) (a := 64) (b := 96) (by omega) (by omega),
-      slice_eq (l := p) (a := 96) (b := 128) (by omega) (by omega)]
-    simp only [show 128 - 96 = 32 by omega, List.drop_zero]
-    rw [word_tail p 96 (by omega)]
-    simp only [show 96 + 24 = 120 by omega]
-    generalize be ((p.drop 120).take 8) = offset
-    by_cases h1 : offset < 128
-    · simp [h1]
-    · simp only [h1, if_false]
-      unfold checkedAdd toU
-      by_cases h2 : offset + 32 < 2 ^ 64
-      · simp only [h2, if_true, not_true_eq_false, if_false]
-        by_cases h3 : offset + 32 > p.length
-        · simp [h3]
-        · simp only [h3, if_false]
-          rw [slice_eq (l := p) (a := offset) (b := offset + 32) (by omega) (by omega)]
-          simp only [show offset + 32 - offset = 32 by omega]
-          rw [word_tail p offset (by omega)]
-          simp only []
-          generalize be ((p.drop (offset + 24)).take 8) = length
-          by_cases h4 : offset + 32 + length < 2 ^ 64
-          · simp only [h4, if_true, not_true_eq_false, if_false]
-            by_cases h5 : offset + 32 + length > p.length
-            · simp [h5]
-            · simp only [h5, if_false]
-              rw [slice_eq (l := p) (a := offset + 32) (b := offset + 32 + length) (by omega) (by omega)]
-              simp only [show offset + 32 + length - (offset + 32) = length by omega]
-          · simp [h4]
-      · simp [h2]
+      slice_eq (l := p) (a := 96) (b := 120) (by omega) (by omega)]
+    simp only [show 120 - 96 = 24 by omega, List.drop_zero]
+    by_cases hu : ((p.drop 96).take 24).any (· != 0) = true
+    · simp [hu]
+    · simp only [hu, Bool.false_eq_true, if_false]
+      rw [slice_eq (l := p) (a := 96) (b := 128) (by omega) (by omega)]
+      simp only [show 128 - 96 = 32 by omega]
+      rw [word_tail p 96 (by omega)]
+      simp only [show 96 + 24 = 120 by omega]
+      generalize be ((p.drop 120).take 8) = offset
+      by_cases h1 : offset < 128
+      · simp [h1]
+      · simp only [h1, if_false]
+        unfold checkedAdd toU
+        by_cases h2 : offset + 32 < 2 ^ 64
+        · simp only [h2, if_true, not_true_eq_false, if_false]
+          by_cases h3 : offset + 32 > p.length
+          · simp [h3]
+          · simp only [h3, if_false]
+            rw [slice_eq (l := p) (a := offset) (b := offset + 24) (by omega) (by omega)]
+            simp only [show offset + 24 - offset = 24 by omega]
+            by_cases hl : ((p.drop offset).take 24).any (· != 0) = true
+            · simp [hl]
+            · simp only [hl, Bool.false_eq_true, if_false]
+              rw [slice_eq (l := p) (a := offset) (b := offset + 32) (by omega) (by omega)]
+              simp only [show offset + 32 - offset = 32 by omega]
+              rw [word_tail p offset (by omega)]
+              simp only []
+              generalize be ((p.drop (offset + 24)).take 8) = length
+              by_cases h4 : offset + 32 + length < 2 ^ 64
+              · simp only [h4, if_true, not_true_eq_false, if_false]
+                by_cases h5 : offset + 32 + length > p.length
+                · simp [h5]
+                · simp only [h5, if_false]
+                  rw [slice_eq (l := p) (a := offset + 32) (b := offset + 32 + length) (by omega) (by omega)]
+                  simp only [show offset + 32 + length - (offset + 32) = length by omega]
+              · simp [h4]
+        · simp [h2]
 
 
 theorem be_zeros (k : Nat) (l : List Nat) : be (List.replicate k 0 ++ l) = be l := by
@@ -72,6 +82,16 @@ theorem word_split (p : List Nat) (a : Nat) :
 theorem be_word_low (p : List Nat) (a : Nat) (h : (p.drop a).take 24 = List.replicate 24 0) :
     be ((p.drop a).take 32) = be ((p.drop (a + 24)).take 8) := by
   rw [word_split, h, be_zeros]
+
+/-- a byte string without a non-zero byte is all zeros -/
+theorem all_zero_eq_replicate (l : List Nat) (h : l.any (· != 0) = false) :
+    l = List.replicate l.length 0 := by
+  induction l with
+  | nil => rfl
+  | cons x xs ih =>
+    simp only [List.any_cons, Bool.or_eq_false_iff] at h
+    have hx : x = 0 := by simpa using h.1
+    rw [List.length_cons, List.replicate_succ, ← ih h.2, hx]
 
 end Gmx.Chainlink
 
